@@ -109,6 +109,8 @@ func sameGot(a, b Got) (bool, string) {
 	return true, ""
 }
 
+func shapeEnv(kind string) bool { return kind == "struct" || kind == "ptr" || kind == "map" }
+
 // pairCase: C02 (modes = opt, noopt of one environment kind) and C15 (modes =
 // the ways of supplying type information).  strict: both fail or both return
 // equal values (C02).  Otherwise (C15): all variants that succeed agree.
@@ -187,8 +189,12 @@ func (r *replayer) pairCase(c Case, strict bool) {
 				if strict && ms[a].Env != ms[b].Env {
 					continue // C02 compares optimizer on/off under the same type information
 				}
-				if !strict && (!ga.Ok || !gb.Ok) && ga.Panic == "" && gb.Panic == "" && !ga.Hang && !gb.Hang {
-					continue // C15: only variants that succeed are compared
+				// C15: among the ways of giving or withholding type information only variants that succeed are compared;
+				// a struct, a pointer to it and a map with the same members carry the same information, so there a
+				// run that fails in one shape and succeeds in another is a changed result too
+				sameInfo := shapeEnv(ms[a].Env) && shapeEnv(ms[b].Env) && ms[a].Optimize == ms[b].Optimize && ms[a].Undef == ms[b].Undef
+				if !strict && !sameInfo && (!ga.Ok || !gb.Ok) && ga.Panic == "" && gb.Panic == "" && !ga.Hang && !gb.Hang {
+					continue
 				}
 				if ok, why := sameGot(ga, gb); !ok {
 					exp := rc.Exp
